@@ -526,7 +526,12 @@ def check_main(prop_id, level_text, obligations_fn, argv):
             return replay_file(sc, args.replay)
         kfs = [k for k in load_known_findings() if k.get("property") == prop_id]
         open_kfs = [k for k in kfs if k.get("status") == "open"]
-        obs = obligations_fn(tier, sc)
+        try:
+            obs = obligations_fn(tier, sc)
+        except Exception as exn:   # a structural guard of the check failed (fails closed, never success)
+            print("INCONCLUSIVE property=%s: the check could not build its obligations: %s" % (prop_id, exn))
+            print("[%s] tier=%s -> exit 2" % (prop_id, tier))
+            return 2
         # known open findings: exclude their signature from the main query (-D<define>) and
         # add a confirmation query restricted to it (-D<define>_ONLY) that must still fail.
         final = []
